@@ -65,11 +65,31 @@ def run_diff(chk, progs, label, mode="vm", repeat=1, inputs=None, rng_layout=Non
         if head[0] == 7:
             chk.dist(label + ":model-out-of-fuel")
             continue
-        if head[0] == 8 and head[1] >= 900:
+        outside = head[0] == 8 and head[1] >= 900
+        runs = o["runs"] if "runs" in o else [o]
+        if outside and len(runs) <= 1:
             chk.dist(label + ":outside-modelled-fragment")
             continue
-        runs = o["runs"] if "runs" in o else [o]
         descr = None
+        if len(runs) > 1:
+            # model-free: the runs of one program in one process must agree with each other in everything they show — the
+            # rendered error text (message, lines, call chain) included, which the model does not have
+            keyf = lambda r: json.dumps({k2: v2 for k2, v2 in r.items() if k2 in ("kind", "value", "display", "err")}, sort_keys=True, ensure_ascii=False)
+            k0 = keyf(runs[0])
+            for ri, ro in enumerate(runs[1:], 2):
+                if keyf(ro) != k0:
+                    a, b = k0, keyf(ro)
+                    i = next((j for j in range(min(len(a), len(b))) if a[j] != b[j]), min(len(a), len(b)))
+                    descr = "run %d of %d differs from the first (nondeterminism): …%s… vs …%s…" % (ri, len(runs), a[max(0, i - 60):i + 60], b[max(0, i - 60):i + 60])
+                    break
+            if descr:
+                chk.dist(label + ":outcome:nondeterministic")
+                chk.count([label, texts[k], json.dumps(cases[k].get("inputs"), sort_keys=True)])
+                bad.append((k, descr, texts[k], m, runs))
+                continue
+        if outside:
+            chk.dist(label + ":outside-modelled-fragment")
+            continue
         for ri, ro in enumerate(runs):
             impl = G.enc_go_run(ro, ids)
             descr = G.compare_run(m, impl) or compare_final(m, impl) or (extra_check(m, impl, texts[k]) if extra_check else None)
